@@ -111,7 +111,8 @@ func Check3(ts []*sdf.Triangle3, tol float64) *Report3 {
 				use[edge{b, a}]++
 			}
 		}
-		r.Volume += t[0].Dot(t[1].Cross(t[2])) / 6
+		// signed tetrahedra against a point of the mesh, not the origin (no cancellation for meshes far away)
+		r.Volume += t[0].Sub(ts[0][0]).Dot(t[1].Sub(ts[0][0]).Cross(t[2].Sub(ts[0][0]))) / 6
 	}
 	r.Vertices = len(w.Pts)
 	for e, n := range bal {
@@ -157,7 +158,7 @@ func Check3(ts []*sdf.Triangle3, tol float64) *Report3 {
 	vol := map[int]float64{}
 	for ti := range r.Tris {
 		t := ts[r.Src[ti]]
-		vol[find(ti)] += t[0].Dot(t[1].Cross(t[2])) / 6
+		vol[find(ti)] += t[0].Sub(ts[0][0]).Dot(t[1].Sub(ts[0][0]).Cross(t[2].Sub(ts[0][0]))) / 6
 	}
 	r.Components = len(vol)
 	for _, v := range vol {
